@@ -390,6 +390,7 @@ def main():
     proof_broken = None
     axioms = []
     obligations = []
+    notes = []
     with Lock("coq"):
         rc, out, dt = coq_make([f.replace(".v", ".vo") for f in plugin.COQ_MODEL])
         if rc != 0:
@@ -414,6 +415,7 @@ def main():
                     proof_broken = "obligation file %s no longer checks:\n%s" % (f, out[-1500:])
                     break
                 axioms += assumptions_from(out)
+                notes += [l.strip()[:300] for l in out.split("\n") if re.search(r"(?i)\b(warning|stale|note):", l)][:40]
     discharged = 0 if proof_broken else len(obligations)
     log("obligations %d discharged %d%s" % (len(obligations), discharged, " (BROKEN)" if proof_broken else ""))
     cov.update({
@@ -421,6 +423,7 @@ def main():
         "obligation_names": obligations,
         "checker_cmd": "coqc -Q coq Nib " + " ".join(plugin.COQ_OBLIG) + " (after make of their dependencies); cases evaluated by coqc with vm_compute",
         "axioms_reported_by_Print_Assumptions": sorted(set(axioms)),
+        "obligation_notes": notes,
         "trusted_base": ["Coq 8.16.1 kernel + vm_compute (no native_compute)",
                          "tools/check.py orchestration and trace->cases_%s.v rendering (tools/props/%s.py)" % (pid, pid.lower()),
                          "Go harness driver harness/%s_test.go (canonicalisation of observables)" % pid.lower()]
